@@ -40,6 +40,9 @@ pub fn candidates(prop: &str) -> Vec<Value> {
             for g in ["G1", "G2"] { for sch in ["Basic", "MessageAugmentation", "ProofOfPossession"] { for kind in ["sc_lib_to_ref", "sc_ref_to_lib", "tc_lib_to_ref", "pok_challenge_ref"] {
                 v.push(json!({"call": "interop", "group": g, "scheme": sch, "kind": kind}));
             }}}
+            if prop == "C13" { for g in ["G1", "G2"] { for sch in ["Basic", "MessageAugmentation", "ProofOfPossession"] { for kind in ["tc_forged_id_sig", "tc_id_u"] {
+                v.push(json!({"call": "identity_payload", "group": g, "scheme": sch, "kind": kind}));
+            }}}}
             if prop == "C18" { for g in ["G1", "G2"] { for kind in ["eg_transcript_default_generator", "eg_transcript_custom_generator", "json_layout"] {
                 v.push(json!({"call": "interop", "group": g, "scheme": "Basic", "kind": kind}));
             }}}
